@@ -201,11 +201,15 @@ package hsrv
 //@   ghost closed bool = false
 //@   ghost helped bool = false
 //@   ghost nCloseTotal int = 0
-//@   on recv evCh(e, ok): assert(imp(pending && ptype == iobroker.EventTypeConnected && s.oneShell, closed) && imp(pending && ptype == iobroker.EventTypeDisconnected && !s.oneShell, helped), "previous_event_handled"); pending = ok; ptype = e.Type; closed = false; helped = false
+//@   ghost chClosed bool = false
+//@   ghost cancelled bool = false
+//@   on recv ctx.Done()(x, okk): cancelled = true
+//@   exit: assert(chClosed || cancelled, "keeps_watching_until_the_event_channel_closes_or_the_context_ends")
+//@   on recv evCh(e, ok): chClosed = !ok; assert(imp(pending && ptype == iobroker.EventTypeConnected && s.oneShell, closed) && imp(pending && ptype == iobroker.EventTypeDisconnected && !s.oneShell, helped), "previous_event_handled"); pending = ok; ptype = e.Type; closed = false; helped = false
 //@   on enter net.Listener.Close(l): assert(pending && ptype == iobroker.EventTypeConnected && s.oneShell && !closed && l == s.l.Listener, "listener_closed_only_on_full_shell_with_one_shell"); closed = true; nCloseTotal++
 //@   on enter Server.printCallbackHelp(ss): assert(pending && ptype == iobroker.EventTypeDisconnected && !s.oneShell && !helped, "help_reprinted_only_after_shell_died_without_one_shell"); helped = true
 //@   loop 1
-//@     invariant handled: imp(pending && ptype == iobroker.EventTypeConnected && s.oneShell, closed) && imp(pending && ptype == iobroker.EventTypeDisconnected && !s.oneShell, helped)
+//@     invariant handled: imp(pending && ptype == iobroker.EventTypeConnected && s.oneShell, closed) && imp(pending && ptype == iobroker.EventTypeDisconnected && !s.oneShell, helped) && !chClosed && !cancelled
 //@   ensures handled_at_exit: imp(pending && ptype == iobroker.EventTypeConnected && s.oneShell, closed) && imp(pending && ptype == iobroker.EventTypeDisconnected && !s.oneShell, helped)
 
 //@ func Server.serveHTTP(s, ctx) (err)
